@@ -176,7 +176,7 @@ func c09Run(c fw.Case, env *fw.Env) fw.Result {
 		}
 	case "stop":
 		for i := 0; i < p.N; i++ {
-			for _, phase := range []string{"connected", "backoff-never-connected", "backoff-after-connected", "in-dialer-first", "in-dialer-later", "waiting-connack", "cancel-before-first", "cancel-in-dialer", "cancel-at-first-active"} {
+			for _, phase := range []string{"connected", "backoff-never-connected", "backoff-after-connected", "in-dialer-first", "in-dialer-later", "waiting-connack", "waiting-connack-forever", "cancel-before-first", "cancel-in-dialer", "cancel-at-first-active"} {
 				sig, det, trc := c09Stop(rng, phase)
 				r.Evals++
 				if sig == "inconclusive" {
@@ -206,8 +206,12 @@ func c09Stop(rng *rand.Rand, phase string) (sig, detail string, trace []string) 
 	tr := memnet.NewTrace()
 	sc := &scen.Scenario{Client: "reconnect"}
 	var faults []scen.Fault
-	if phase == "waiting-connack" {
+	if phase == "waiting-connack" || phase == "waiting-connack-forever" {
 		faults = []scen.Fault{{At: 1, Kind: scen.NoConnack}}
+	}
+	connectTimeout := 40 * time.Millisecond
+	if phase == "waiting-connack-forever" {
+		connectTimeout = time.Hour // nothing but Disconnect can end the wait for the CONNACK
 	}
 	br := scen.NewBroker(tr, scen.BrokerCfg{}, faults)
 	d, _ := scen.NewDialer(tr, br, sc, nil)
@@ -244,7 +248,7 @@ func c09Stop(rng *rand.Rand, phase string) (sig, detail string, trace []string) 
 			}
 		}
 	}
-	rc, err := mqtt.NewReconnectClient(d, mqtt.WithReconnectWait(time.Duration(base)*time.Millisecond, time.Duration(max)*time.Millisecond), mqtt.WithTimeout(40*time.Millisecond))
+	rc, err := mqtt.NewReconnectClient(d, mqtt.WithReconnectWait(time.Duration(base)*time.Millisecond, time.Duration(max)*time.Millisecond), mqtt.WithTimeout(connectTimeout))
 	if err != nil {
 		return "inconclusive", err.Error(), nil
 	}
@@ -360,7 +364,7 @@ func c09Stop(rng *rand.Rand, phase string) (sig, detail string, trace []string) 
 		case <-time.After(scen.Watchdog):
 			return fail("connect-does-not-return-on-cancel", "Connect did not return although its context was cancelled when the first CONNACK was accepted")
 		}
-	case "waiting-connack":
+	case "waiting-connack", "waiting-connack-forever":
 		if !tr.WaitFor(scen.Watchdog, func() bool {
 			for _, e := range tr.Events {
 				if e.Kind == memnet.KFault {
@@ -453,7 +457,13 @@ func c09Stop(rng *rand.Rand, phase string) (sig, detail string, trace []string) 
 				once.Do(func() { dch <- dres{panic: e} })
 			}
 		}()
-		dctx, dcancel := context.WithTimeout(context.Background(), scen.Watchdog)
+		dto := scen.Watchdog
+		if phase == "waiting-connack-forever" {
+			// the library cannot abandon a CONNECT in progress, so Disconnect lasts as long as its context allows;
+			// what it must not do is outlive that context
+			dto = 200 * time.Millisecond
+		}
+		dctx, dcancel := context.WithTimeout(context.Background(), dto)
 		defer dcancel()
 		cs := tr.Call("Disconnect", "")
 		err := rc.Disconnect(dctx)
@@ -468,6 +478,9 @@ func c09Stop(rng *rand.Rand, phase string) (sig, detail string, trace []string) 
 	select {
 	case res = <-dch:
 	case <-time.After(scen.Watchdog + 2*time.Second):
+		if phase == "waiting-connack-forever" {
+			return fail("disconnect-does-not-return", "Disconnect called while the client waits for a CONNACK (no connect timeout) did not return although its own context expired %v ago", scen.Watchdog)
+		}
 		return fail("disconnect-does-not-return", "Disconnect did not return")
 	}
 	if res.panic != nil {
@@ -483,7 +496,7 @@ func c09Stop(rng *rand.Rand, phase string) (sig, detail string, trace []string) 
 			return fail("dial-after-disconnect", "dial #%d started after Disconnect had returned (err=%v)", e.N, res.err)
 		}
 	}
-	if res.err != nil && errors.Is(res.err, context.DeadlineExceeded) {
+	if res.err != nil && errors.Is(res.err, context.DeadlineExceeded) && phase != "waiting-connack-forever" {
 		if !scen.CertifyStuck(tr, &memnet.Conn{Tr: tr}) {
 			return "inconclusive", "Disconnect timed out while the system was still moving", tr.Dump(40)
 		}
